@@ -292,6 +292,11 @@ def gen(tier, seed):
                 n += 1
     finally:
         model.TYPE_WRAP = None
+    from .runner import empty_enum_module
+    for el, b, pre in [('PartialEq, Eq, PartialOrd, Ord', 'PartialOrd + Ord', ''), ('PartialEq, PartialOrd', 'PartialOrd', ''),
+                       ('PartialEq, Eq, Ord', 'Ord', 'impl PartialOrd for Ty { fn partial_cmp(&self, o: &Self) -> Option<Ordering> { Some(Ord::cmp(self, o)) } }\n')]:
+        mods.append(empty_enum_module(f'm{n:04d}', el, b, FUNCTIONS, pre=pre))
+        n += 1
     return mods
 
 
